@@ -159,8 +159,44 @@ def fuzz_files(ck, maxsize, nsynth):
     syn += liars.write_set(random.Random(ck.seed * 31337 + 17), d, max(16, nsynth // 4))
     syn += synthmods.write_set_extra(random.Random(ck.seed * 7561 + 19), d, max(12, nsynth // 4), gens=c02_gens.GENS, prefix="syz")
     syn += c02_gens.chunk_liars_from_corpus(random.Random(ck.seed * 7561 + 23), sorted(vlib.corpus_files()), d, max(8, nsynth // 8))
+    syn += small_archives(random.Random(ck.seed * 52711 + 29), d)
     k = max(1, len(files) // (2 * max(1, len(syn))))
     return files + syn * k
+
+
+def small_archives(rng, d):
+    """Tiny valid archives of every built-in container kind around a small module (writers of the C08 stack):
+    header-dominated inputs, so that field mutations land in the framing."""
+    import c08_writers as w
+    mod = synthmods.gen_mod(rng)[0][:1500]
+    mems = [("song.mod", mod)]
+    two = [("readme.txt", b"hello"), ("song.mod", mod)]
+    out = []
+
+    def put(name, data):
+        p = os.path.join(d, name)
+        with open(p, "wb") as f:
+            f.write(data)
+        out.append(p)
+    try:
+        z3 = [(n, b, None) for n, b in two]
+        put("arc0.gz", w.gzip_member(mod, name=b"song.mod")[0])
+        put("arc1.bz2", w.bzip2(mod))
+        put("arc2.xz", w.xz(mod))
+        put("arc3.zip", w.zip_archive(z3))
+        put("arc4.zip", w.zip_archive([(n, b, None) for n, b in mems], method="stored"))
+        put("arc5.Z", w.compress_lzw(mod, maxbits=12))
+        put("arc6.lha", w.lha_archive(mems))
+        put("arc7.arc", w.arc_archive([(n, b, 2) for n, b in mems]))
+        put("arc8.arc", w.arc_archive([(n, b, 3) for n, b in two], spark=True))
+        put("arc9.arcfs", w.arcfs_archive([(n, b, 2) for n, b in mems]))
+        put("arc10.lzx", w.lzx_archive(two))
+        put("arc11.pp", w.pp20(mod))
+        put("arc12.mmcmp", w.mmcmp_stored(mod, block_size=400, subs_per_block=3))
+        put("arc13.mmcmp", w.mmcmp_stored(mod, block_size=0x10000, subs_per_block=1))
+    except Exception as e:      # a writer that fails is not a finding of this check
+        print("small_archives: %r" % (e,))
+    return out
 
 
 ASAN_BASE = "detect_leaks=0:abort_on_error=0:allocator_may_return_null=1"
@@ -204,6 +240,37 @@ def run_fuzz_shard(args):
                       "args": [str(seed), last[0], "1", scratch, "san"]})
         start = int(last[0]) + 1
     return out_cases, fails, alltext
+
+
+def run_types_shard(args):
+    exe, scratch, files = args
+    if not files:
+        return []
+    rc, out, err = vlib.run_exe(exe, ["0", "0", "0", scratch, "types"] + files, timeout=1800, env=fill_env(FILL_MAIN))
+    return [tuple(l[5:].split("\t", 1)) for l in out.decode("latin-1").splitlines() if l.startswith("type ") and "\t" in l]
+
+
+def run_prefix_shard(args):
+    """prefix lengths 0..maxlen of each file; after an abort the sweep continues behind the failing length"""
+    exe, scratch, maxlen, files = args
+    n, fails = 0, []
+    for f in files:
+        start = 0
+        while start <= maxlen:
+            rc, out, err = vlib.run_exe(exe, ["0", str(start), str(maxlen), scratch, "prefix", f], timeout=1800,
+                                        env=fill_env(FILL_MAIN))
+            text = out.decode("latin-1")
+            lens = [int(x) for x in re.findall(r"^prefix (\d+)$", text, re.M)]
+            n += len(lens)
+            if rc == 0 or not lens:
+                if rc != 0:
+                    fails.append({"file": f, "len": start, "stderr": err[-3000:], "rc": rc})
+                break
+            fails.append({"file": f, "len": lens[-1], "stderr": err[-3000:], "rc": rc})
+            if len(fails) > 20:
+                return n, fails
+            start = lens[-1] + 1
+    return n, fails
 
 
 def run_window_shard(args):
@@ -316,7 +383,7 @@ def run(ck):
     kinds = {}
     for variant in variants:
         fexe = vlib.build_harness("c01_fuzz", ["c01_fuzz.c"], variant=variant)
-        per = 220 if quick else (6000 if variant == "asan" else 2500)
+        per = 450 if quick else (6000 if variant == "asan" else 2500)
         shards = [(fexe, ck.seed * 1009 + 17 * i + (0 if variant == "asan" else 500), 0, per, scratch, files, variant)
                   for i in range(16)]
         results = vlib.pmap(run_fuzz_shard, shards)
@@ -368,6 +435,29 @@ def run(ck):
                                  (idx, fname, FILL_MAIN, FILL_ALT, dmain[idx], dalt[idx]))
                     break
         ck.note("heapfill_cases_compared", ncmp)
+    # ---- every short prefix of one file per recognised format, as exactly sized memory images ---------------
+    fexe = vlib.build_harness("c01_fuzz", ["c01_fuzz.c"], variant="asan")
+    allf = sorted(f for f in set(files) if os.path.getsize(f) <= 400000)
+    reps = {}
+    for chunk in vlib.pmap(run_types_shard, [(fexe, scratch, allf[i::16]) for i in range(16)]):
+        for path, typ in chunk:
+            reps.setdefault(typ, [])
+            if len(reps[typ]) < (1 if quick else 3):
+                reps[typ].append(path)
+    repfiles = sorted(p for v in reps.values() for p in v)
+    ck.note("formats_with_a_prefix_sweep", len(reps))
+    maxlen = 192 if quick else 1100
+    nprefix = 0
+    for (n, fails) in vlib.pmap(run_prefix_shard, [(fexe, scratch, maxlen, repfiles[i::16]) for i in range(16)]):
+        nprefix += n
+        for f in fails:
+            sig = "timeout" if f["rc"] in (-999, 142, -14) else vlib.sanitizer_signature(f["stderr"])
+            ck.violation("asan:prefix:%s" % sig,
+                         {"harness": "c01_fuzz prefix", "args": ["0", str(f["len"]), str(f["len"]), scratch, "prefix", f["file"]],
+                          "file": f["file"], "prefix_length": f["len"], "stderr": f["stderr"][-2500:]},
+                         "the first %d bytes of %s as an exactly sized memory image: %s" % (f["len"], os.path.basename(f["file"]), sig))
+    ck.note("prefix_images_checked", nprefix)
+    ck.bump("evaluations_extra", nprefix)
     ck.note("mutation_and_entry_distribution", dict(sorted(kinds.items())[:60]))
     ck.note("fuzz_cases_completed", ncases)
     ck.sample({"fuzz case": "seed*1009+17*shard, index", "example": "case 12 …/ode2ptk.mod entry=2 test=0 mut=[field16be x2]"})
